@@ -375,27 +375,61 @@ theorem c16_kicked_ends (s : State) (r : Reg) (hk : r.kicked = true) : valueAt s
 
 /-! ## copies -/
 
-/-- A copy gets a *fresh* registration (one that no live subscriber holds) that starts at the original's position
-in the original's mode; every other registration — the original included — the window, the position and the
-stream are untouched. -/
+/-- A copy — taken at *any* moment, also while the original is waiting inside `next()` — gets a *fresh* registration
+(one that no live subscriber holds) in the original's mode, at the original's position but never beyond the last
+published value; every other registration — the original included — the window, the position and the stream are
+untouched. -/
 theorem c16_copy_independent (hc : CfgOk maxLen minLen) (hs : Reachable maxLen minLen s) (hl : Live s h r)
-    (hp : r.phase = Phase.idle) (sid : Nat) :
+    (sid : Nat) :
     ∃ h', (stepSubCopy s sid h).2 = Res.handle h' ∧ h' ≠ h ∧
       (s.regs[h']? = none ∨ ∃ x, s.regs[h']? = some x ∧ x.used = false) ∧
-      (∃ cov, (stepSubCopy s sid h).1.regs[h']? = some (newReg sid r.mode r.pos cov)) ∧
+      (∃ cov, (stepSubCopy s sid h).1.regs[h']? = some (newReg sid r.mode (min r.pos (s.pos - 1)) cov)) ∧
       (∀ k, k ≠ h' → (stepSubCopy s sid h).1.regs[k]? = s.regs[k]?) ∧
       (stepSubCopy s sid h).1.q = s.q ∧ (stepSubCopy s sid h).1.pos = s.pos ∧
       (stepSubCopy s sid h).1.stream = s.stream := by
   have hi := reachable_inv hc hs
-  obtain ⟨h', e1, e2, e3, e4, e5, e6, _, e8⟩ := subscribeLk_spec hi sid r.mode r.pos
-  have hstep : stepSubCopy s sid h = subscribeLk s sid r.mode r.pos := by
-    unfold stepSubCopy; simp only [hl.1]; rw [if_pos ⟨hl.2, hp⟩]
+  obtain ⟨h', e1, e2, e3, e4, e5, e6, _, e8⟩ := subscribeLk_spec hi sid r.mode (min r.pos (s.pos - 1))
+  have hstep : stepSubCopy s sid h = subscribeLk s sid r.mode (min r.pos (s.pos - 1)) := by
+    unfold stepSubCopy; simp only [hl.1]; rw [if_pos hl.2]
   rw [hstep]
   refine ⟨h', e1, ?_, e2, ⟨_, e3⟩, e4, e5, e6, e8⟩
   intro e; subst e
   rcases e2 with e2 | ⟨x, e2, e2'⟩
   · rw [hl.1] at e2; cases e2
   · rw [hl.1] at e2; cases e2; rw [hl.2] at e2'; cases e2'
+
+/-- where the copy starts: between two `next()` calls exactly at the original's position; from a *waiting* original
+at the last published value — so the copy receives the very value the original is waiting for, and everything after
+it (with `c16_all_values_contiguous` for the copy's own registration) -/
+theorem c16_copy_start (hc : CfgOk maxLen minLen) (hs : Reachable maxLen minLen s) (hl : Live s h r) :
+    (r.phase = Phase.idle → min r.pos (s.pos - 1) = r.pos) ∧
+    (r.awt = true → min r.pos (s.pos - 1) = s.pos - 1 ∧ r.pos = s.pos) ∧
+    min r.pos (s.pos - 1) < s.pos := by
+  have hi := reachable_inv hc hs
+  have hr := hi.regs h r hl.1 hl.2
+  have hp := hi.pos_eq
+  refine ⟨?_, ?_, by omega⟩
+  · intro hidle; have := hr.idle_lt hidle; omega
+  · intro ha; have := (hr.parked ha).2.1; omega
+
+/-- The pinned copy constructor took a waiting original's raw position (the one of the value *not yet published*):
+the copy's first `next()` reported end of stream on an open publisher, unkicked and not behind (replayed on the
+headers by corpus/c16_copy_waiting.txt; repaired by the `fix:` commit). -/
+theorem c16_asis_copy_of_waiting_ends :
+    ((runAsIs (init none 1)
+        [OpAsIs.op (Op.subRecent 0 Mode.all), OpAsIs.op (Op.advanceSuspend 0), OpAsIs.subCopyAsIs 1 0,
+         OpAsIs.op (Op.advance 1), OpAsIs.op (Op.getValue 1)]).regs[1]?.map (fun r => (r.phase, r.kicked)),
+     (runAsIs (init none 1)
+        [OpAsIs.op (Op.subRecent 0 Mode.all), OpAsIs.op (Op.advanceSuspend 0), OpAsIs.subCopyAsIs 1 0,
+         OpAsIs.op (Op.advance 1), OpAsIs.op (Op.getValue 1)]).closed)
+      = (some (Phase.done, false), false) := by decide
+
+/-- the same on the repaired step: the copy waits with the original and both receive the published value -/
+theorem c16_fixed_copy_of_waiting :
+    ((run (init none 1)
+        [Op.subRecent 0 Mode.all, Op.advanceSuspend 0, Op.subCopy 1 0, Op.advanceSuspend 1, Op.push [5], Op.relock,
+         Op.getValue 0, Op.getValue 1]).regs.map (fun r => (r.got, r.phase)))
+      = [([5], Phase.idle), ([5], Phase.idle)] := by decide
 
 /-- every subscription (recent, at a position, by copy) hands out a registration no live subscriber holds -/
 theorem c16_subscribe_fresh (hc : CfgOk maxLen minLen) (hs : Reachable maxLen minLen s) (sid : Nat) (m : Mode)
